@@ -206,7 +206,7 @@ func TestVerif_C02(t *testing.T) {
 				for pos := 1; pos < 3; pos++ {
 					for bi, b1 := range b1s {
 						for ci, b2 := range b2s {
-							if !full && !((bi+ci+op+skip)%12 == 0) {
+							if !full && !((bi+ci+op+skip)%24 == 0) {
 								continue
 							}
 							idx++
@@ -223,5 +223,5 @@ func TestVerif_C02(t *testing.T) {
 			}
 		}
 	}
-	kit.Run(s, "programs_lockstep", kit.N{Quick: 60000, Thorough: 4000000}, c02Gen, c02Check)
+	kit.Run(s, "programs_lockstep", kit.N{Quick: 30000, Thorough: 4000000}, c02Gen, c02Check)
 }
